@@ -564,6 +564,8 @@ class _parser:
             try:
                 tz = tz or get_timezone_from_tz_string(self.settings.TIMEZONE)
                 tz_offset = tz.utcoffset(dateobj)
+            except pytz.AmbiguousTimeError:
+                tz_offset = tz.utcoffset(dateobj, is_dst=False)
             except (pytz.UnknownTimeZoneError, pytz.NonExistentTimeError):
                 tz_offset = timedelta(hours=0)
 
